@@ -40,6 +40,15 @@ func C18TD(args []string) error {
 	if err != nil {
 		return err
 	}
+	// a client certificate that the test-directory package itself issued earlier in this process (another CA every call)
+	tt := &testdirectory.Logger{Logger: hx.NullLogger()}
+	_, earlierCli := testdirectory.GetTLSConfig(tt, testdirectory.WithMTLS(tt), testdirectory.WithHost(tt, "127.0.0.1"))
+	var earlier tls.Certificate
+	if earlierCli != nil && len(earlierCli.Certificates) > 0 {
+		earlier = earlierCli.Certificates[0]
+	} else {
+		earlier = wrong
+	}
 	for _, mode := range []string{"server", "mtls"} {
 		d, err := hx.StartDir(false, mode == "mtls", testdirectory.WithDefaults(&testdirectory.Logger{Logger: hx.NullLogger()}, &testdirectory.Defaults{AllowAnonymousBind: true}))
 		if err != nil {
@@ -57,13 +66,13 @@ func C18TD(args []string) error {
 		}
 		_ = pem.Decode
 		for rep := 0; rep < 3; rep++ {
-			for _, kind := range []string{"valid", "nocert", "wrongca", "plaintext", "garbage", "silent"} {
+			for _, kind := range []string{"valid", "nocert", "wrongca", "earlierca", "plaintext", "garbage", "silent"} {
 				o := c18Obs{Mode: mode, Kind: kind}
 				func() {
 					var c *lx.Conn
 					var err error
 					switch kind {
-					case "valid", "nocert", "wrongca":
+					case "valid", "nocert", "wrongca", "earlierca":
 						cfg := base.Clone()
 						if kind == "valid" && mode == "mtls" {
 							cfg.Certificates = []tls.Certificate{own}
@@ -71,6 +80,9 @@ func C18TD(args []string) error {
 						if kind == "wrongca" {
 							// present the foreign certificate whatever the server's acceptable CAs say
 							cfg.GetClientCertificate = func(*tls.CertificateRequestInfo) (*tls.Certificate, error) { return &wrong, nil }
+						}
+						if kind == "earlierca" {
+							cfg.GetClientCertificate = func(*tls.CertificateRequestInfo) (*tls.Certificate, error) { return &earlier, nil }
 						}
 						c, err = lx.DialTLS(d.Addr, cfg, 3*time.Second)
 					default:
